@@ -193,6 +193,13 @@ static unsigned char *work ; static sf_count_t work_cap ;
 
 static void run_mutant (const Seed *s, const Mut *m, int routes_mask, int pairs)
 {	char desc [200] ; int described = 0 ; sf_count_t len = -1 ;
+	/* replaying one spec: do not format the millions of specs of the other seeds and families */
+	if (vl_replaying ())
+	{	static const Seed *last ; static int seed_matches ; char tag [96] ;
+		if (last != s) { snprintf (tag, sizeof (tag), "seed=%s fam=", s->name) ; seed_matches = strstr (vl_opts.replay, tag) != NULL ; last = s ; }
+		if (! seed_matches) return ;
+		snprintf (tag, sizeof (tag), " fam=%s ", hc_family (m)) ; if (! strstr (vl_opts.replay, tag)) return ;
+		}
 	for (int route = 0 ; route < R_NROUTES ; route++)
 	{	if (! (routes_mask & (1 << route))) continue ;
 		if (! vl_peek ()) vl_skip (1) ;
